@@ -108,7 +108,7 @@ def shrink(case, bucket):
 def chain_terms(tier):
     """Long same-operator runs (left-nested, right-nested, balanced) and mixed two-operator runs."""
     from ..gen_syntax import _node
-    ns = [5, 9, 12, 17, 33] if tier == "quick" else [5, 8, 9, 10, 12, 16, 17, 25, 33, 64, 129]
+    ns = [5, 9, 17, 33, 65, 129] if tier == "quick" else [5, 8, 9, 10, 12, 16, 17, 25, 33, 64, 129]
     leaves = [("id", "x%d" % i, ()) for i in range(140)]
     for op in gen_syntax.BINARY:
         if op == "in":
